@@ -226,6 +226,12 @@ func runC11(r *vk.Run) {
 	r.Phase("large", r.N(300, 60000), func(c *vk.Case) {
 		rng := c.Rng
 		n := rng.Range(13, 120)
+		many := c.Idx%25 == 7
+		if many {
+			// a grouping by something like a request id: hundreds, thousands of groups in one step
+			n = vk.Pick(rng, []int{501, 640, 1025, 2100})
+			c.Count("large_vectors_over_500_groups", 1)
+		}
 		var recs []Rec
 		perm := rng.Perm(n)
 		for i := 0; i < n; i++ {
@@ -234,7 +240,15 @@ func runC11(r *vk.Run) {
 		}
 		env := &MEnv{Recs: recs, Msg: env0.Msg, UnwrapKeeps: env0.UnwrapKeeps, CmpFalse: env0.CmpFalse, CmpFalseBool: env0.CmpFalseBool}
 		var expr MExpr = c11Leaf()
-		switch rng.Intn(4) {
+		which := rng.Intn(4)
+		if many {
+			which = 4 + rng.Intn(2)
+		}
+		switch which {
+		case 4: // one group per series
+			expr = &VecAgg{Op: vk.Pick(rng, []string{"sum", "max", "count", "avg"}), Inner: expr, Grouped: true, Group: []string{"a"}}
+		case 5: // ... and counted
+			expr = &VecAgg{Op: "count", Inner: &VecAgg{Op: vk.Pick(rng, []string{"sum", "min"}), Inner: expr, Grouped: true, Without: true, Group: []string{"b", "job"}}}
 		case 0:
 			expr = &VecAgg{Op: "sort", Inner: expr}
 		case 1:
@@ -257,7 +271,7 @@ func runC11(r *vk.Run) {
 			c.Fail("", text+": "+m, det())
 			return
 		}
-		if va := expr.(*VecAgg); va.Op == "sort" || va.Op == "sort_desc" {
+		if va := expr.(*VecAgg); (va.Op == "sort" || va.Op == "sort_desc") && !many {
 			want := expr.Eval(env, p.Start)
 			for i, k := range want.Order {
 				if i >= len(res.Series) || labelKey(res.Series[i].Labels) != k {
@@ -584,6 +598,7 @@ func runC11(r *vk.Run) {
 		}
 	})
 	r.Require("spread_groups_checked", 200)
+	r.Require("large_vectors_over_500_groups", 10)
 
 	// input vectors with NaN members (unwrap of "NaN", which ParseFloat accepts). NaN has no rank, so only
 	// what every placement of NaN agrees on is demanded: top-k/bottom-k return min(k, n) series of the
